@@ -479,11 +479,60 @@ fn spec_has_emb(s: &crate::stack::Spec) -> bool {
     }
 }
 
+/// a lower-layer file is removed and re-created through the async overlay, with the k-th
+/// underlying call of the re-creation failing (every k): whatever the failed call left behind
+/// (e.g. a marker AND an upper entry), the pure observers that follow must not mutate anything
+fn async_recreate_under_failure(cfg: &RunCfg, out: &mut RunOut) -> Option<(String, String, usize)> {
+    use crate::asyncsim::*;
+    use std::sync::atomic::Ordering;
+    let layers = match &cfg.specs[0] {
+        crate::stack::Spec::Ovl { layers } if layers.len() >= 2 => layers,
+        _ => return None,
+    };
+    let upper = layers[0].view();
+    let f = layers.iter().skip(1).flat_map(|l| l.view().t.into_iter()).find(|(p, n)| matches!(n, Node::File(_)) && !upper.exists(p)).map(|(p, _)| p)?;
+    let shape = format!("{}/async", cfg.specs[0].shape());
+    let (lower_nodes, _) = cfg.specs[0].lower_info();
+    out.count("probe.c08.async_recreate_under_failure_scenarios");
+    for k in 1..=18u64 {
+        let ab = abuild(&cfg.specs[0], crate::rng::mix(cfg.order_seed, 0), cfg.permute, crate::rng::mix(cfg.seed, 0xC08B), 10).ok()?;
+        let mut ax = AExec { root: ab.root.clone(), slots: Default::default(), others: vec![] };
+        let mut st = PollStats::default();
+        ab.ctl.on.store(true, Ordering::SeqCst);
+        let _ = ax.exec(&Op::RemoveFile(P::new(&f)), &mut st);
+        ab.ctl.calls.store(0, Ordering::SeqCst);
+        ab.ctl.fail_at.store(k, Ordering::SeqCst);
+        let r = ax.exec(&Op::Write { p: P::new(&f), append: false, script: vec![WStep::Write(Payload { id: 9100, len: 4, utf8: true })] }, &mut st);
+        ab.ctl.fail_at.store(0, Ordering::SeqCst);
+        if r.is_panic() {
+            return None;
+        }
+        let observers = [Op::Metadata(P::new(&f)), Op::ReadFile(P::new(&f), 64), Op::ReadDir(P::new(&parent_of(&f))), Op::Exists(P::new(&f)), Op::IsFile(P::new(&f)), Op::WalkDir(P::new(""))];
+        for ob in observers.iter() {
+            ab.ctl.take_rec();
+            ab.ctl.rec_on.store(true, Ordering::SeqCst);
+            let _ = ax.exec(ob, &mut st);
+            ab.ctl.rec_on.store(false, Ordering::SeqCst);
+            for rec in ab.ctl.take_rec() {
+                let lower = lower_nodes.contains(&rec.node);
+                return Some((format!("C08|{}|observer-mutates|{}|during={}|after-failed-recreation", shape, rec.method, ob.kind()), format!("'{}' removed, re-creation with underlying call #{} failing (result {}), then the pure observer {:?} issued the mutating call {}('{}') to node {}{}", f, k, r.class(), ob, rec.method, rec.path, rec.node, if lower { " (a lower layer)" } else { "" }), 2));
+            }
+        }
+        ab.ctl.on.store(false, Ordering::SeqCst);
+    }
+    None
+}
+
 fn async_c08_mirror(cfg: &RunCfg, out: &mut RunOut) -> Option<(String, String, usize)> {
     use crate::asyncsim::*;
     use std::sync::atomic::Ordering;
     let rt = tokio::runtime::Builder::new_current_thread().build().ok()?;
     let _guard = rt.enter();
+    if cfg.seed % 9 == 0 {
+        if let Some(v) = async_recreate_under_failure(cfg, out) {
+            return Some(v);
+        }
+    }
     let ab = match abuild(&cfg.specs[0], crate::rng::mix(cfg.order_seed, 0), cfg.permute, crate::rng::mix(cfg.seed, 0xC08A), 15) {
         Ok(ab) => ab,
         Err(e) if e.starts_with("LIBRARY-PANIC") => return Some(("async|build|panic".into(), e, 0)),
@@ -534,9 +583,10 @@ fn async_c08_mirror(cfg: &RunCfg, out: &mut RunOut) -> Option<(String, String, u
                 return Some((format!("C08|{}|observer-mutates|{}|during={}", shape, r.method, op.kind()), format!("step {} pure observer {:?} (async port) issued the mutating call {}('{}') to node {}", i, op, r.method, r.path, r.node), i));
             }
         }
-        if faulted {
-            break; // the history after a failed step is not the generated one any more
-        }
+        // after a failed step the history is not the generated one any more - but the two rules
+        // judged here (no mutating call reaches a lower layer, observers mutate nothing) hold in
+        // every state, e.g. with a marker AND an upper entry left behind by the failed call
+        let _ = faulted;
     }
     None
 }
